@@ -82,6 +82,34 @@ def pureColor (cfg : Cfg) (c : Conf) (nc : Bool) : Tag → Color
       | none => []
       | some x => getColor cfg.dfltId c x
 
+/-- the tag with the palette class that serves it in an object whose own palette is of class `top`: the
+object's own class, or the class `top`'s `SUB_PALETTES_MAP` substitutes for the requested one (enum cells are
+always served by a sub-palette) -/
+def resolveTag (cfg : Cfg) (top : ClassId) : Tag → Tag
+  | .plain => .plain
+  | .pal cls i => .pal (if cls = top then top else subCls cfg top cls) i
+  | .enum e v cls i => .enum e v (subCls cfg top cls) i
+
+/-- the colour of a tag of an object printed with a palette of class `top`, as a function of the configuration alone -/
+def pureColorAt (cfg : Cfg) (top : ClassId) (c : Conf) (nc : Bool) (t : Tag) : Color :=
+  pureColor cfg c nc (resolveTag cfg top t)
+
+/-- the accessor that serves the tag does not wait for another palette class -/
+def tagStableAt (cfg : Cfg) (top : ClassId) (t : Tag) : Bool := tagStable cfg (resolveTag cfg top t)
+
+/-- without substitutions nothing changes -/
+theorem resolveTag_id {cfg : Cfg} {top : ClassId} {ci : ClassInfo} (hci : cfg.classes[top]? = some ci)
+    (hsub : ci.subMap = []) (t : Tag) : resolveTag cfg top t = t := by
+  have h : ∀ c, subCls cfg top c = c := by intro c; simp [subCls, hci, ClassInfo.actual, hsub]
+  cases t with
+  | plain => rfl
+  | pal cls i =>
+    simp only [resolveTag, h]
+    split
+    · rename_i e; rw [e]
+    · rfl
+  | enum e v cls i => simp only [resolveTag, h]
+
 /-- a palette of the kind the rendering asked for, seen through the invariant -/
 theorem pal_color {cfg : Cfg} {s : State} (hinv : Inv cfg s) {k : ConfId} {c : Conf} {nc : Bool}
     (hk : s.confs.lookup k = some c) {a : Addr} {q : Pal} (hq : s.heap.lookup a = some q)
@@ -113,70 +141,55 @@ theorem nth_some {l : List Color} {i : Nat} {col : Color} (h : nth l i = .ok col
 theorem tagColor_pure {cfg : Cfg} (hko : cfg.keyByObj = true) {s : State} (hinv : Inv cfg s) {k : ConfId} {c : Conf}
     {nc : Bool} (hk : s.confs.lookup k = some c) {p : Addr} {pp : Pal} (hp : s.heap.lookup p = some pp)
     (hpnc : pp.noColor = nc) (hpconf : nc = false → pp.conf = k) (t : Tag) {col : Color}
-    (hst : nc = false → c.closed = true ∧ tagStable cfg t = true)
-    (h : tagColor s p pp.cls t = .ok col) : col = pureColor cfg c nc t := by
-  -- the palette that serves class `cls`: the object's own one or a memoised sub-palette
-  have sub : ∀ cls a, (if cls = pp.cls then Except.ok p else subAddr s p cls) = .ok a ∨ subAddr s p cls = .ok a →
-      ∃ q, s.heap.lookup a = some q ∧ q.cls = cls ∧ q.noColor = nc ∧ (nc = false → q.conf = k) := by
-    intro cls a ha
-    have hsub : subAddr s p cls = .ok a → ∃ q, s.heap.lookup a = some q ∧ q.cls = cls ∧ q.noColor = nc ∧
-        (nc = false → q.conf = k) := by
-      intro h1
-      unfold subAddr at h1
-      split at h1
-      · rename_i b hb
-        cases h1
-        obtain ⟨pp', pb, e1, e2, e3, e4, e5⟩ := hinv.subs p cls a hb
-        rw [hp] at e1; cases e1
-        refine ⟨pb, e2, e3, e4.trans hpnc, ?_⟩
-        intro hf
-        rw [e5 (by rw [hpnc]; exact hf)]; exact hpconf hf
-      · cases h1
-    rcases ha with ha | ha
-    · split at ha
-      · rename_i e; cases ha; exact ⟨pp, hp, e.symm, hpnc, hpconf⟩
-      · exact hsub ha
-    · exact hsub ha
+    (hst : nc = false → c.closed = true ∧ tagStableAt cfg pp.cls t = true)
+    (h : tagColor s p pp.cls t = .ok col) : col = pureColorAt cfg pp.cls c nc t := by
+  -- the memoised sub-palette that serves class `cls`: of the class the own palette's map substitutes
+  have hsub : ∀ cls a, subAddr s p cls = .ok a → ∃ q, s.heap.lookup a = some q ∧ q.cls = subCls cfg pp.cls cls ∧
+      q.noColor = nc ∧ (nc = false → q.conf = k) := by
+    intro cls a h1
+    unfold subAddr at h1
+    split at h1
+    · rename_i b hb
+      cases h1
+      obtain ⟨pp', pb, e1, e2, e3, e4, e5⟩ := hinv.subs p cls a hb
+      rw [hp] at e1; cases e1
+      refine ⟨pb, e2, e3, e4.trans hpnc, ?_⟩
+      intro hf
+      rw [e5 (by rw [hpnc]; exact hf)]; exact hpconf hf
+    · cases h1
+  unfold pureColorAt
+  unfold tagStableAt at hst
   cases t with
   | plain => simp [tagColor] at h; subst h; rfl
   | pal cls i =>
     simp only [tagColor, bind, Except.bind] at h
-    have key : ∀ a, (if cls = pp.cls then Except.ok p else subAddr s p cls) = .ok a →
-        ∀ pa, getPal s a = .ok pa → nth pa.colors i = .ok col →
-        col = pureColor cfg c nc (.pal cls i) := by
-      intro a ha pa hpa h'
-      obtain ⟨q, hq, hqc, hqn, hqk⟩ := sub cls a (Or.inl ha)
-      simp only [getPal, hq] at hpa
-      cases hpa
-      have := pal_color hinv hk hq hqn hqk (nth_some h') (by rw [hqc]; exact hst)
-      rw [hqc] at this; exact this
     by_cases hcp : cls = pp.cls
-    · simp only [hcp, if_true] at h key
-      cases hg : getPal s p with
-      | error e => simp [hg] at h
-      | ok pa =>
-        simp only [hg] at h
-        exact hcp ▸ key p rfl pa hg h
-    · simp only [hcp, if_false] at h key
+    · simp only [hcp, if_true] at h
+      simp only [getPal, hp] at h
+      simp only [resolveTag, hcp, if_true] at hst ⊢
+      exact pal_color hinv hk hp hpnc hpconf (nth_some h) hst
+    · simp only [hcp, if_false] at h
       cases ha : subAddr s p cls with
       | error e => simp [ha] at h
       | ok a =>
         simp only [ha] at h
-        cases hg : getPal s a with
-        | error e => simp [hg] at h
-        | ok pa =>
-          simp only [hg] at h
-          exact key a ha pa hg h
+        obtain ⟨q, hq, hqc, hqn, hqk⟩ := hsub cls a ha
+        simp only [getPal, hq] at h
+        simp only [resolveTag, hcp, if_false] at hst ⊢
+        have := pal_color hinv hk hq hqn hqk (nth_some h) (by rw [hqc]; exact hst)
+        rw [hqc] at this; exact this
   | enum e v cls i =>
     simp only [tagColor, bind, Except.bind] at h
     cases ha : subAddr s p cls with
     | error er => simp [ha] at h
     | ok a =>
       simp only [ha] at h
-      obtain ⟨q, hq, hqc, hqn, hqk⟩ := sub cls a (Or.inr ha)
+      obtain ⟨q, hq, hqc, hqn, hqk⟩ := hsub cls a ha
+      simp only [resolveTag] at hst ⊢
       have hst' : nc = false → c.closed = true ∧ tagStable cfg (.pal q.cls i) = true := by
         intro hf; rw [hqc]; exact hst hf
-      have hgoal : ∀ col', q.colors[i]? = some col' → col' = pureColor cfg c nc (.enum e v cls i) := by
+      have hgoal : ∀ col', q.colors[i]? = some col' →
+          col' = pureColor cfg c nc (.enum e v (subCls cfg pp.cls cls) i) := by
         intro col' hc
         have := pal_color hinv hk hq hqn hqk hc hst'
         rw [hqc] at this; exact this
@@ -196,8 +209,8 @@ theorem colorChunks_pure {cfg : Cfg} (hko : cfg.keyByObj = true) {s : State} (hi
     {nc : Bool} (hk : s.confs.lookup k = some c) {p : Addr} {pp : Pal} (hp : s.heap.lookup p = some pp)
     (hpnc : pp.noColor = nc) (hpconf : nc = false → pp.conf = k) :
     ∀ (chs : List SChunk) (out : List Chunk),
-      (nc = false → c.closed = true ∧ ∀ ch ∈ chs, tagStable cfg ch.tag = true) →
-      colorChunks s p pp.cls chs = .ok out → out = paintChunks (pureColor cfg c nc) chs := by
+      (nc = false → c.closed = true ∧ ∀ ch ∈ chs, tagStableAt cfg pp.cls ch.tag = true) →
+      colorChunks s p pp.cls chs = .ok out → out = paintChunks (pureColorAt cfg pp.cls c nc) chs := by
   intro chs
   induction chs with
   | nil => intro out _ h; simp [colorChunks] at h; subst h; rfl
@@ -223,8 +236,8 @@ theorem colorLines_pure {cfg : Cfg} (hko : cfg.keyByObj = true) {s : State} (hin
     {nc : Bool} (hk : s.confs.lookup k = some c) {p : Addr} {pp : Pal} (hp : s.heap.lookup p = some pp)
     (hpnc : pp.noColor = nc) (hpconf : nc = false → pp.conf = k) :
     ∀ (ls : List SLine) (out : List (List Chunk)),
-      (nc = false → c.closed = true ∧ ∀ l ∈ ls, ∀ ch ∈ l.chunks, tagStable cfg ch.tag = true) →
-      colorLines s p pp.cls ls = .ok out → out = paintLines (pureColor cfg c nc) ls := by
+      (nc = false → c.closed = true ∧ ∀ l ∈ ls, ∀ ch ∈ l.chunks, tagStableAt cfg pp.cls ch.tag = true) →
+      colorLines s p pp.cls ls = .ok out → out = paintLines (pureColorAt cfg pp.cls c nc) ls := by
   intro ls
   induction ls with
   | nil => intro out _ h; simp [colorLines] at h; subst h; rfl
@@ -303,7 +316,7 @@ the cached palette and the sub-palettes it memoised have the colours the configu
 theorem tagColor_steady {cfg : Cfg} (hko : cfg.keyByObj = true) {s : State} (hinv : Inv cfg s) {k : ConfId} {c : Conf}
     (hk : s.confs.lookup k = some c) {p : Addr} {pp : Pal} (hp : s.heap.lookup p = some pp)
     (hcached : c.cache.lookup pp.cls = some p) (t : Tag) {col : Color}
-    (h : tagColor s p pp.cls t = .ok col) : col = pureColor cfg c false t := by
+    (h : tagColor s p pp.cls t = .ok col) : col = pureColorAt cfg pp.cls c false t := by
   -- a palette with the current colours of its class
   have fromSnap : ∀ (q : Pal) (i : Nat) (col' : Color), (∀ ci, cfg.classes[q.cls]? = some ci → q.colors = snapshot cfg ci c) →
       (∃ ci, cfg.classes[q.cls]? = some ci) → q.colors[i]? = some col' → col' = pureColor cfg c false (.pal q.cls i) := by
@@ -321,20 +334,23 @@ theorem tagColor_steady {cfg : Cfg} (hko : cfg.keyByObj = true) {s : State} (hin
   have ownC : ∃ ci, cfg.classes[pp.cls]? = some ci := by
     obtain ⟨ci, hci, _⟩ := hinv.pals p pp hp; exact ⟨ci, hci⟩
   have sub : ∀ cls a, subAddr s p cls = .ok a →
-      ∃ q, s.heap.lookup a = some q ∧ q.cls = cls ∧ (∀ ci, cfg.classes[q.cls]? = some ci → q.colors = snapshot cfg ci c) ∧
+      ∃ q, s.heap.lookup a = some q ∧ q.cls = subCls cfg pp.cls cls ∧
+        (∀ ci, cfg.classes[q.cls]? = some ci → q.colors = snapshot cfg ci c) ∧
         (∃ ci, cfg.classes[q.cls]? = some ci) := by
     intro cls a h1
     unfold subAddr at h1
     split at h1
     · rename_i b hb
       cases h1
-      obtain ⟨_, pb, _, e2, e3, _⟩ := hinv.subs p cls a hb
+      obtain ⟨pp', pb, e1, e2, e3, _⟩ := hinv.subs p cls a hb
+      rw [hp] at e1; cases e1
       refine ⟨pb, e2, e3, ?_, ?_⟩
       · intro ci hci
         rw [e3] at hci
         exact hinv.subcur k c pp.cls p cls a pb ci hk hcached hb e2 hci
       · obtain ⟨ci, hci, _⟩ := hinv.pals a pb e2; exact ⟨ci, hci⟩
     · cases h1
+  unfold pureColorAt
   cases t with
   | plain => simp [tagColor] at h; subst h; rfl
   | pal cls i =>
@@ -342,8 +358,8 @@ theorem tagColor_steady {cfg : Cfg} (hko : cfg.keyByObj = true) {s : State} (hin
     by_cases hcp : cls = pp.cls
     · simp only [hcp, if_true] at h
       simp only [getPal, hp] at h
-      have := fromSnap pp i col own ownC (nth_some h)
-      rw [hcp]; exact this
+      simp only [resolveTag, hcp, if_true]
+      exact fromSnap pp i col own ownC (nth_some h)
     · simp only [hcp, if_false] at h
       cases ha : subAddr s p cls with
       | error e => simp [ha] at h
@@ -351,6 +367,7 @@ theorem tagColor_steady {cfg : Cfg} (hko : cfg.keyByObj = true) {s : State} (hin
         simp only [ha] at h
         obtain ⟨q, hq, hqc, hqs, hqC⟩ := sub cls a ha
         simp only [getPal, hq] at h
+        simp only [resolveTag, hcp, if_false]
         have := fromSnap q i col hqs hqC (nth_some h)
         rw [hqc] at this; exact this
   | enum e v cls i =>
@@ -360,7 +377,9 @@ theorem tagColor_steady {cfg : Cfg} (hko : cfg.keyByObj = true) {s : State} (hin
     | ok a =>
       simp only [ha] at h
       obtain ⟨q, hq, hqc, hqs, hqC⟩ := sub cls a ha
-      have hgoal : ∀ col', q.colors[i]? = some col' → col' = pureColor cfg c false (.enum e v cls i) := by
+      simp only [resolveTag]
+      have hgoal : ∀ col', q.colors[i]? = some col' →
+          col' = pureColor cfg c false (.enum e v (subCls cfg pp.cls cls) i) := by
         intro col' hc
         have := fromSnap q i col' hqs hqC hc
         rw [hqc] at this; exact this
@@ -384,9 +403,9 @@ theorem render_spec {cfg : Cfg} (hcfg : cfgOk cfg = true) (hko : cfg.keyByObj = 
     (hinv : Inv cfg s) (h : render cfg alloc k nc sh s = .ok (s', out)) :
     Inv cfg s' ∧
     ∃ c c', s.confs.lookup k = some c ∧ s'.confs.lookup k = some c' ∧ c'.closed = c.closed ∧ c'.noColor = c.noColor ∧
-      ((nc = false → c.closed = true ∧ ∀ t ∈ sh.tags, tagStable cfg t = true) →
-        out = paintLines (pureColor cfg c' nc) sh.lines) ∧
-      (nc = false → c'.smap.length = c.smap.length → out = paintLines (pureColor cfg c' false) sh.lines) := by
+      ((nc = false → c.closed = true ∧ ∀ t ∈ sh.tags, tagStableAt cfg sh.top t = true) →
+        out = paintLines (pureColorAt cfg sh.top c' nc) sh.lines) ∧
+      (nc = false → c'.smap.length = c.smap.length → out = paintLines (pureColorAt cfg sh.top c' false) sh.lines) := by
   unfold render at h
   simp only [bind, Except.bind] at h
   cases h1 : mkPalette cfg alloc sh.top k nc s with
@@ -421,6 +440,7 @@ theorem render_spec {cfg : Cfg} (hcfg : cfgOk cfg = true) (hko : cfg.keyByObj = 
         obtain ⟨c2, hk2, hcl2, hnc2, _, _⟩ := (hfr1.trans hfr2).confs k c hk
         have hp2 := hfr2.heap p pp hp1
         rw [← hpc] at h3
+        rw [← hpc]
         refine ⟨c, c2, hk, by rw [hconfs3]; exact hk2, hcl2, hnc2, ?_, ?_⟩
         rotate_left
         · -- steady state: the configuration learnt nothing, so the cached top palette stayed cached
@@ -711,13 +731,13 @@ theorem syncGp_inv {cfg : Cfg} {s : State}
       ∃ p, s.heap.lookup a = some p ∧ p.cls = cls ∧ p.conf = k ∧ p.noColor = false)
     (nc : ∀ cls a, s.ncCache.lookup cls = some a → ∃ p, s.heap.lookup a = some p ∧ p.cls = cls ∧ p.noColor = true)
     (subs : ∀ pa c b, s.subs.lookup (pa, c) = some b → ∃ pp pb, s.heap.lookup pa = some pp ∧ s.heap.lookup b = some pb ∧
-      pb.cls = c ∧ pb.noColor = pp.noColor ∧ (pp.noColor = false → pb.conf = pp.conf))
+      pb.cls = subCls cfg pp.cls c ∧ pb.noColor = pp.noColor ∧ (pp.noColor = false → pb.conf = pp.conf))
     (enums : cfg.keyByObj = true → ∀ e ec a v cols, s.enums.lookup e = some ec → ec.lookup (a, v) = some cols →
       ∃ p, s.heap.lookup a = some p ∧ cols = p.colors)
     (cur : ∀ k c cls a p ci, s.confs.lookup k = some c → c.cache.lookup cls = some a → s.heap.lookup a = some p →
       cfg.classes[cls]? = some ci → p.colors = snapshot cfg ci c)
     (subcur : ∀ k c cls pa c2 b pb ci2, s.confs.lookup k = some c → c.cache.lookup cls = some pa →
-      s.subs.lookup (pa, c2) = some b → s.heap.lookup b = some pb → cfg.classes[c2]? = some ci2 →
+      s.subs.lookup (pa, c2) = some b → s.heap.lookup b = some pb → cfg.classes[subCls cfg cls c2]? = some ci2 →
       pb.colors = snapshot cfg ci2 c)
     (glob : (s.confs.lookup s.global).isSome) : Inv cfg (syncGp cfg s) := by
   obtain ⟨e1, e2, e3, e4, e5, _, e7⟩ := syncGp_fields cfg s
